@@ -27,6 +27,11 @@ CLAIMS = {
    text="Decides what the code asks of crypto/tls and pion/dtls: all four kinds of config objects (TLS/DTLS x client/server) are reconstructed from the source and compared with the settings the property needs (RootCAs from the caller's CA with the parse result checked, ServerName from the caller, MinVersion >= TLS1.2, no InsecureSkipVerify/verification override, extended master secret, RequireAndVerifyClientCert + ClientCAs from caCert on every path where a client CA may be configured), and every plaintext dial/listen is dominated by 'no security settings'. Chain validation, expiry, SAN matching and version negotiation themselves are run-time behaviour of the libraries and are not decided.",
    note="Trusted: documented semantics of crypto/tls, crypto/x509 and pion/dtls configuration fields.",
    ref="DESIGN.md §5 C18"),
+ "C06": dict(
+   technique="typestate path rule on the go/ssa CFG (pop -> push|delete on every path to exit/loop head, item identity by def-use), dominance/ownership rules for insertions and deletions, shape checks of the heap.Interface methods, guard extraction for the deadline tests",
+   text="Decides that no path of the expiry scan or of record ingestion leaves a held flow without a queue entry or a queue entry without a flow: every popped item is re-pushed through container/heap or its flow deleted on all paths (this is the rule that found the two stranding defects); new records are pushed before they reach the map and linked both ways; deletions only after the pop; existing flows always re-scheduled through Update->heap.Fix with the unchanged active and a fresh inactive deadline; Swap/Push/Pop keep index, Less/minExpireTime order by the earlier deadline; nothing is popped while both deadlines are in the future; delete is guarded by the inactive deadline or exhausted retries. It decides the per-step transition, not whole histories or wall-clock timing.",
+   note="Trusted: container/heap given a correct heap.Interface; time.Time comparisons.",
+   ref="DESIGN.md §5 C06"),
 }
 NOT_YET = "rules designed (DESIGN.md §5) but not built yet in this round; no claim is made until the check exists"
 props=[json.loads(l) for l in open('/verif/properties.jsonl')]
